@@ -174,3 +174,26 @@ impl MZone {
         TimeZone::new(p.transitions, p.types, p.leaps, p.rule)
     }
 }
+
+impl MLtt {
+    pub fn from_tz(t: &LocalTimeType) -> MLtt {
+        let n = t.time_zone_designation();
+        MLtt { off: t.ut_offset(), dst: t.is_dst(), name: if n.is_empty() { None } else { Some(n.to_string()) } }
+    }
+}
+
+impl MDay {
+    pub fn from_tz(d: &RuleDay) -> MDay {
+        match d {
+            RuleDay::Julian1WithoutLeap(x) => MDay::J1(x.get()),
+            RuleDay::Julian0WithLeap(x) => MDay::J0(x.get()),
+            RuleDay::MonthWeekDay(x) => MDay::M(x.month(), x.week(), x.week_day()),
+        }
+    }
+}
+
+impl MRule {
+    pub fn from_tz(a: &AlternateTime) -> MRule {
+        MRule { std: MLtt::from_tz(a.std()), dst: MLtt::from_tz(a.dst()), start: MDay::from_tz(a.dst_start()), start_time: a.dst_start_time(), end: MDay::from_tz(a.dst_end()), end_time: a.dst_end_time() }
+    }
+}
